@@ -18,7 +18,8 @@
 //!   T,font,size,x,y,hex   text().set_font(font#,size).at(x,y).write(text)       font# 0..13 = the 14 standard fonts
 //!   I,name,cs,w,h,hex,x,y,dw,dh   add_image(name, raw image cs=g|r) + draw_image(name,x,y,dw,dh)
 //!   A,kind,x1,y1,x2,y2,hex        add_annotation(kind t|s|h|l, rect, contents)
-//!   F,kind,name,x1,y1,x2,y2       form field kind t (text) | c (checkbox) named `name` with one widget
+//!   F,kind,name,x1,y1,x2,y2       form field kind t (text) | c (checkbox) named `name` with one widget;
+//!                                 kind x = `forms::create_checkbox_widget` annotation (two appearance streams)
 #![allow(dead_code)]
 
 use oxidize_pdf::annotations::{Annotation, AnnotationType};
@@ -305,6 +306,16 @@ pub fn build_doc(prog: &str) -> Result<Built, String> {
                 "F" => {
                     nargs(&a, 6)?;
                     let rect = Rectangle::new(Point::new(num(a[3])?, num(a[4])?), Point::new(num(a[5])?, num(a[6])?));
+                    if a[1] == "x" {
+                        // stand-alone checkbox widget annotation with /AP << /N << /Yes stream /Off stream >> >>
+                        let ann = oxidize_pdf::forms::create_checkbox_widget(
+                            &CheckBox::new(a[2]),
+                            &oxidize_pdf::forms::ButtonWidget::new(rect),
+                        )
+                        .map_err(|e| format!("checkbox-widget {:?}", e))?;
+                        pg.add_annotation(ann);
+                        continue;
+                    }
                     let widget = Widget::new(rect);
                     let fmr = fm.get_or_insert_with(FormManager::new);
                     let r = match a[1] {
